@@ -76,6 +76,8 @@ type vhPhys struct {
 	agSub, agStack    string
 	agArmed           bool
 	agHit, agRelease  chan struct{}
+	// afterPut: called (outside the lock) after a Put was performed successfully
+	afterPut func(key string)
 }
 
 func vhNewPhys(t *testing.T) *vhPhys {
@@ -216,7 +218,21 @@ func (p *vhPhys) Put(ctx context.Context, e *physical.Entry) error {
 	if err := p.before("put", e.Key); err != nil {
 		return err
 	}
-	return p.inner.Put(ctx, e)
+	err := p.inner.Put(ctx, e)
+	p.mu.Lock()
+	hook := p.afterPut
+	p.mu.Unlock()
+	if err == nil && hook != nil {
+		hook(e.Key)
+	}
+	return err
+}
+
+// SetAfterPut installs (nil: removes) a hook run after every successful Put
+func (p *vhPhys) SetAfterPut(f func(key string)) {
+	p.mu.Lock()
+	p.afterPut = f
+	p.mu.Unlock()
 }
 
 func (p *vhPhys) Get(ctx context.Context, k string) (*physical.Entry, error) {
